@@ -11,13 +11,19 @@ pub enum Item {
     Method(&'static str, &'static str),
     /// a `const`/`static` array or scalar
     Const(&'static str),
+    /// the leading part of a function body, up to and including its first top-level `for` loop, as a function of
+    /// its own: (function, new name, parameters as Rust source text, `let`s to drop, result variable, result type)
+    Region(&'static str, &'static str, &'static str, &'static [&'static str], &'static str, &'static str),
+    /// a struct, with the fields that are kept (others are dropped: references back to owners, caches, ...)
+    Struct(&'static str, &'static [&'static str]),
 }
 
 impl Item {
     pub fn rust_name(&self) -> String {
         match self {
-            Item::Fn(n) | Item::Const(n) => n.to_string(),
+            Item::Fn(n) | Item::Const(n) | Item::Struct(n, _) => n.to_string(),
             Item::NestedFn(o, n) => format!("{}::{}", o, n),
+            Item::Region(f, n, ..) => format!("{}[..first for]=>{}", f, n),
             Item::Method(t, n) => format!("{}::{}", t, n),
         }
     }
@@ -64,8 +70,45 @@ pub fn units() -> Vec<Unit> {
         Unit {
             module: "RsUtils",
             file: "utils.rs",
-            fns: vec![Item::Fn("is_abs_path")],
+            fns: vec![Item::Fn("is_abs_path"), Item::Fn("greatest_lower_bound")],
             imports: vec![],
+        },
+        Unit {
+            module: "RsTypes",
+            file: "types.rs",
+            fns: vec![
+                Item::Struct("RawToken", &["dst_line", "dst_col", "src_line", "src_col", "src_id", "name_id", "is_range"]),
+                Item::Struct("SourceMap", &["tokens"]),
+                Item::Struct("Token", &["raw", "idx", "offset"]),
+                Item::Method("Token", "get_dst_line"),
+                Item::Method("Token", "get_dst_col"),
+                Item::Method("Token", "get_dst"),
+                Item::Method("Token", "get_src_line"),
+                Item::Method("Token", "get_src_col"),
+                Item::Method("Token", "get_src"),
+                Item::Method("Token", "get_src_id"),
+                Item::Method("Token", "has_source"),
+                Item::Method("Token", "get_name_id"),
+                Item::Method("Token", "is_range"),
+                Item::Method("SourceMap", "lookup_token"),
+            ],
+            imports: vec!["RsUtils"],
+        },
+        Unit {
+            module: "RsDecodeTokens",
+            file: "decoder.rs",
+            fns: vec![
+                Item::Fn("decode_rmi"),
+                Item::Region(
+                    "decode_regular",
+                    "decode_regular_tokens",
+                    "names: Vec<()>, sources: Vec<()>, range_mappings: String, mappings: String",
+                    &["names", "sources", "range_mappings", "mappings", "allocation_size"],
+                    "tokens",
+                    "Vec<RawToken>",
+                ),
+            ],
+            imports: vec!["RsVlq", "RsTypes"],
         },
     ]
 }
